@@ -132,7 +132,7 @@ def deleteSessionF : Nat → State → Nat → String → Except Err State
         let s2 := invalidateKeys s1 idx sess
         let s3 := dropSessionRefs s2 idx id
         -- updateSessionCheck(critical)
-        foldE (fun st c => ensureCheckF n st idx true
+        foldE (fun st c => ensureCheckF n st idx false
                   { c with status := critical, output := sessionCheckOutput sess critical })
               (sessionTypedChecks s3 sess) s3
 
@@ -162,7 +162,7 @@ def ensureCheck (s : State) (idx : Nat) (preserve : Bool) (hc : Chk) : Except Er
 
 /-- `updateSessionCheck` -/
 def updateSessionCheck (s : State) (idx : Nat) (sess : Sess) (status : String) : Except Err State :=
-  foldE (fun st c => ensureCheck st idx true { c with status := status, output := sessionCheckOutput sess status })
+  foldE (fun st c => ensureCheck st idx false { c with status := status, output := sessionCheckOutput sess status })
         (sessionTypedChecks s sess) s
 
 /-- request payload of a session create -/
